@@ -347,6 +347,8 @@ class Evaluator(object):
         raise NotEvaluable('constructed object %r' % (v,))
 
     def ev_App(self, v):
+        if v in self.env:
+            return self.env[v]
         m = getattr(self, 'op_' + v.op.replace('-', '_'), None)
         if m is None:
             raise NotEvaluable('operator %s' % v.op)
@@ -493,6 +495,24 @@ class Evaluator(object):
     def op_reach(self, g, X):
         return g_reach(self.ev(g), self.ev(X))
 
+    def op_inst(self, cref, oid, fields):
+        d = {kv.items[0].v: kv.items[1] for kv in fields.items}
+        adj = self.env.get('$adjfield', '_next')
+        if adj in d:
+            nx = self.ev(d[adj])
+            if not isinstance(nx, dict):
+                raise NotEvaluable('adjacency field is %r' % (nx,))
+            nodes = set(nx.keys())
+            for k, vs in nx.items():
+                for x in vs:
+                    if x not in nodes:
+                        raise GraphError('edge to a non-node %r' % (x,))
+            return CG(nodes, nx)
+        if '$base' in d:
+            return self.op_graph(d['$base'], d['$edges'], d['$nodes'],
+                                 d.get('$sedges'))
+        raise NotEvaluable('instance without adjacency')
+
     def op_gcopy(self, g):
         return self.ev(g)
 
@@ -551,6 +571,50 @@ class Evaluator(object):
         for v in self.env['$labels'].values():
             r |= v
         return frozenset(r)
+
+
+def deep_snapshot(I, v, path, seen=None):
+    """immutable description of a value including the heap objects it
+    reaches: containers -> Coll with snapshotted parts, instances ->
+    App('inst', CRef, Tup((name, value)..))"""
+    seen = seen or ()
+    if isinstance(v, Obj):
+        if v.oid in seen:
+            return App('cycle', Const(v.oid))
+        h = path.heap[v.oid]
+        seen = seen + (v.oid,)
+        if h.kind in ('list', 'set', 'dict'):
+            parts = []
+            for p in h.parts:
+                parts.append(Part(
+                    p.kind, deep_snapshot(I, p.val, path, seen),
+                    key=None if p.key is None else
+                    deep_snapshot(I, p.key, path, seen),
+                    gens=[(g, deep_snapshot(I, it, path, seen))
+                          for (g, it) in p.gens],
+                    conds=[(deep_snapshot(I, c, path, seen), pol)
+                           for (c, pol) in p.conds]))
+            return Coll(v.oid, h.kind, parts, h.havoc)
+        if h.kind == 'inst':
+            items = [Tup((Const(k), deep_snapshot(I, x, path, seen)))
+                     for k, x in sorted(h.fields.items())]
+            return App('inst', CRef(h.ci), Const(v.oid), Tup(items))
+        return v
+    if isinstance(v, Coll):
+        return Coll(v.oid, v.kind, [Part(
+            p.kind, deep_snapshot(I, p.val, path, seen),
+            key=None if p.key is None else deep_snapshot(I, p.key, path,
+                                                         seen),
+            gens=[(g, deep_snapshot(I, it, path, seen))
+                  for (g, it) in p.gens],
+            conds=[(deep_snapshot(I, c, path, seen), pol)
+                   for (c, pol) in p.conds]) for p in v.parts], v.havoc)
+    if isinstance(v, Tup):
+        return Tup([deep_snapshot(I, x, path, seen) for x in v.items])
+    if isinstance(v, App):
+        return App(v.op, *[deep_snapshot(I, x, path, seen)
+                           if isinstance(x, V) else x for x in v.args])
+    return v
 
 
 class NeedChoice(Exception):
